@@ -54,7 +54,7 @@ def _norm(x):
 
 class Cfg:
     def __init__(self, seed=0, slots=("A", "B"), max_objs=2, actions=(), clock=False,
-                 queries=("name",), numeric=False, use_iter=True, use_exit=True):
+                 queries=("name",), numeric=False, use_iter=True, use_exit=True, max_denies=0):
         self.seed = seed
         base = 1000 + (seed % 9) * 13
         self.pid = {"A": base, "B": base + 7, "C": base + 19}
@@ -66,6 +66,7 @@ class Cfg:
         self.numeric = numeric
         self.use_iter = use_iter
         self.use_exit = use_exit
+        self.max_denies = max_denies      # permission faults: /proc/<pid>/stat of ONE incarnation becomes unreadable
         self.btime0 = 1700000000 + (seed % 5) * 3600
         self.j0 = 500000 + (seed % 7) * 1000
 
@@ -86,6 +87,7 @@ class Exec:
         self.ran_false = []   # is_running() has returned False
         self.viols = []
         self.label = ""
+        self.ndeny = 0
 
     # ------------------------------------------------------------ enabled
     def enabled(self):
@@ -103,6 +105,11 @@ class Exec:
                         ev.append(["exit", s])
                     else:
                         ev.append(["reap", s])
+        if self.ndeny < c.max_denies:
+            for s in c.slots:
+                p = w.procs.get(c.pid[s])
+                if p is not None and not p.zombie and "stat" not in p.denied:
+                    ev.append(["deny", s])
         if len(self.objs) < c.max_objs:
             for s in c.slots:
                 ev.append(["new", s])
@@ -147,6 +154,9 @@ class Exec:
             w.reap(c.pid[ev[1]])
         elif k == "die":
             w.vanish(c.pid[ev[1]])
+        elif k == "deny":
+            w.procs[c.pid[ev[1]]].denied.add("stat")
+            self.ndeny += 1
         elif k == "tick100":
             w.tick(100)
         elif k == "step-":
@@ -176,7 +186,9 @@ class Exec:
             out = outcome(self.objs[i].is_running)
             exp = self.ident(i)
             lab = "is_running:%s" % (out[1] if out[0] == "ok" else out[1])
-            if out[0] != "ok" or out[1] is not exp:
+            if self.ndeny:
+                pass       # a refused identity re-check is C03's business (known finding there), not judged here
+            elif out[0] != "ok" or out[1] is not exp:
                 self.viol("is_running:%s-expected-%s" % (out[1] if out[0] == "ok" else out[1], exp),
                           "is_running() -> %r but the object's process is %s in the table (pid %d owner uid %r, object uid %r)"
                           % (out, "still" if exp else "not", self.objs[i].pid, w.owner_uid(self.objs[i].pid), self.ouid[i]))
@@ -250,6 +262,8 @@ class Exec:
     # ---------------------------------------------------- C02 invariants
     def check_identity(self):
         """==/hash over every pair of held objects (pure, evaluated after every event)."""
+        if self.ndeny:
+            return       # identity under permission faults is outside C02's quantifier (see C03's known finding)
         objs = self.objs
         for i, o in enumerate(objs):
             h = outcome(hash, o)
@@ -283,7 +297,7 @@ class Exec:
             if p is None:
                 slots[s] = None
             else:
-                slots[s] = ["Z" if p.zombie else "R", p.uid, p.start]
+                slots[s] = ["Z" if p.zombie else ("D" if "stat" in p.denied else "R"), p.uid, p.start]
         # relabel incarnation uids by order of appearance (uids are allocation counters)
         uids = sorted({v[1] for v in slots.values() if v} | {u for u in self.ouid if u is not None})
         rel = {u: n for n, u in enumerate(uids)}
@@ -317,7 +331,7 @@ class Exec:
         key = {"slots": {s: (None if v is None else [v[0], rel[v[1]]] + ([v[2] - c.j0] if c.numeric else []))
                          for s, v in slots.items()},
                "objs": objs, "pmap": pmap, "reused": sorted(ps._pids_reused),
-               "lowest": ps._LOWEST_PID, "ranf": list(self.ran_false)}
+               "lowest": ps._LOWEST_PID, "ranf": list(self.ran_false), "ndeny": self.ndeny}
         if c.numeric:
             key["bt"] = None if lin.BOOT_TIME is None else lin.BOOT_TIME - c.btime0
             key["btime"] = w.btime - c.btime0
